@@ -62,6 +62,7 @@ structure MState where
   uuidsEver : List Nat := []
   poseSent : List ((Nat × Nat) × List Nat) := []          -- (connection, entity) ↦ origin timestamps of the pose updates received from it
   poseSeen : List ((Nat × Nat × Nat) × Nat) := []         -- (observer, sender, entity) ↦ how far into that list the observer has been relayed
+  parked : List ((Nat × Nat) × Option Nat) := []          -- (connection, origin timestamp) of an update waiting for its frame ↦ uuid of the session it was sent in
 deriving Inhabited
 
 def flat (s : String) : String := s.replace "\n" " "
@@ -514,11 +515,37 @@ def MState.step (m : MState) (st : IStep) : MState :=
       | none => m
     | _ => m
   let m := m.registry st
+  -- C03 / C11: an update that waits for its frame is handled in the session it was sent in (or in none): not in the one
+  -- the connection joined in the meantime, where the same ids name other things
+  let held : Option (Nat × Nat) := match st.ev with
+    | .recv c (.updatePose ots _ (some _)) | .recv c (.compUpdate ots ..) => some (c, ots)
+    | _ => none
+  let m := match held with
+    | some key => { m with parked := ((m.parked.filter fun q => q.1 != key) ++ [(key, (m0.whereIs key.1).map fun x => x.1.uuid)]) }
+    | none => m
+  let m := match st.ev with
+    | .handle c (some (.updatePose ots ..)) _ | .handle c (some (.compUpdate ots ..)) _ =>
+      match m.parked.find? fun q => q.1 == (c, ots) with
+      | some (_, was) =>
+        let now_ := (m0.whereIs c).map fun x => x.1.uuid
+        let m := { m with parked := m.parked.filter fun q => q.1 != (c, ots) }
+        if was != now_ then
+          let d := s!"connection {c} sent update {ots} in session {was} (uuid); it is handled in session {now_}"
+          (m.bad "C03" "update-carried-into-another-session" d).bad "C11" "update-carried-into-another-session" d
+        else m
+      | none => m
+    | _ => m
   -- C04: every message the server sends carries its time (the receive function the clients are built on refuses one
   -- that does not): an answer without it never reaches the requester
   let m := st.extra.foldl (fun (m : MState) (x : String) =>
     match x.splitOn " " with
     | ["notimestamp", c, kind] => m.bad "C04" "message-without-timestamp" s!"connection {c} was sent a {kind} without a timestamp"
+    | ["splitstate", c, name] =>
+      -- the module of connection `c` works on a state that is not its session's: what it stores no newcomer is handed,
+      -- what it numbers collides with the session's numbering
+      let d := s!"the {name} module of connection {c} holds a state of its own, not the one of its session"
+      let m := ((m.bad "C01" "module-state-split" d).bad "C10" "module-state-split" d).bad "C16" "module-state-split" d
+      if name == "dagaz" then m.bad "C20" "module-state-split" d else m
     | _ => m) m
   -- C20 retention: the number of stored planes a session reports never goes down while the session lives
   let m := match st.ev with
